@@ -214,6 +214,8 @@ PROPS["C07"]["tasks"] += ["Session.setup", "Agent.setup", "FundamentalPriceShock
 PROPS["C20"]["tasks"] += ["FCNAgent.setup", "MarketMakerAgent.setup", "ArbitrageAgent.setup"]
 for _p in ("C06", "C08"):
     PROPS[_p]["tasks"].append("Market accessors read their own series")
+for _p in ("C09", "C11"):
+    PROPS[_p]["tasks"].append("SequentialRunner._update_markets")
 for _p in ("C07", "C13", "C15", "C16", "C18"):
     PROPS[_p]["tasks"].append("effects:no-shared-mutable-state")
 PROPS["C15"]["tasks"] += ["PriceLimitRule.setup"]
